@@ -85,8 +85,11 @@ def Sline.backspace (sl : Sline) (count : BitVec 32) : Option Sline :=
     | some b => some { sl with buf := b, len := len, cursor := cursor }
   else some { sl with len := len, cursor := cursor }
 
-/-- `sline_getline`: `buf[len] = 0; return buf;` — the caller reads `sline_size` bytes of it -/
+/-- `sline_getline`: `if (sl->cap) buf[len] = 0; return buf;` — the caller reads `sline_size` bytes of it.
+(Round 3b: the guard `if (sl->cap)` of `fix: sline_getline writes no terminator into a line without a buffer`
+(609dfa2, C15) is now in the model: a line without a buffer stores nothing.) -/
 def Sline.getline (sl : Sline) : Option (Sline × List Byte) :=
+  if sl.cap = 0 then some (sl, sl.buf.take sl.len.toNat) else
   match storeAt sl.buf sl.len.toNat 0 with
   | none => none
   | some b => some ({ sl with buf := b }, b.take sl.len.toNat)
